@@ -8,7 +8,15 @@
    apply_remove_op, checkpoint, PendingIntents), src/cas.rs (remove, remove_range, with_blob_item),
    src/cas_manager.rs (delete_blobs), src/orphan.rs (delete_orphans).
    Bytes of WAL and snapshot are not in this model (they are M_seq's business); the index layer
-   (apply_op, refcounts) is shared with M_seq. *)
+   (apply_op, refcounts) is shared with M_seq.
+
+   Faults: `bad h` says that the canonical path of hash h is obstructed (a non-empty directory sits
+   there): unlinking it, renaming a staged file onto it and reading it all fail with an error that
+   is not NotFound.  `ckbad` says that writing the index snapshot fails, so every checkpoint
+   returns an error.  The error paths are the code's: a failed rename reverts the registered
+   intent (IntentGuard::drop, point guard_drop.lock_I); a failed blob deletion or rollover
+   checkpoint after the operation was applied returns the error WITHOUT reverting the intent a
+   second time (apply_put_op has already released it). *)
 From Cas Require Export Index.
 
 Inductive ccall :=
@@ -24,7 +32,8 @@ Inductive ccall :=
 Inductive cres :=
 | CUnit | CBool (b : bool) | CNum (n : N) | CBytes (o : option bytes) | CSize (o : option N)
 | CMissing                                   (* BlobDataMissing *)
-| COrphans (deleted skipped : N).
+| COrphans (deleted skipped : N)
+| CErr.                                      (* the call returned an I/O error *)
 
 (* the second half of every write: lock I, lock S, lock W + append + apply, filter, unlinks,
    release I, optional rollover checkpoint *)
@@ -36,7 +45,8 @@ Inductive pc :=
 | Idle
 | PReg (k c : bytes)                          (* parked at commit.register *)
 | PILock (k c : bytes)                        (* intent.lock_I *)
-| PRen (k c : bytes)                          (* commit.rename *)
+| PRen (k c : bytes) (repl : option bytes)     (* commit.rename; repl = the intent this one replaced in by_key *)
+| PDropI (k h : bytes) (repl : option bytes)  (* guard_drop.lock_I: reverting an uncommitted intent *)
 | WLockI (w : wkind)                          (* put.lock_I / rm.lock_I *)
 | WLockS (w : wkind)                          (* *.lock_S, holding I *)
 | WLockW (w : wkind)                          (* *.lock_W, holding I and S *)
@@ -76,6 +86,8 @@ Section Conc.
   Variable H : bytes -> bytes.
   Variable cmp : bytes -> bytes -> comparison.     (* key order *)
   Variable nops : N.                               (* num_ops_per_wal *)
+  Variable bad : bytes -> bool.                    (* obstructed blob paths (by hash) *)
+  Variable ckbad : bool.                           (* checkpoints fail *)
 
   Fixpoint tget (l : list (nat * tstate)) (t : nat) : option tstate :=
     match l with [] => None | (u, s) :: r => if Nat.eqb t u then Some s else tget r t end.
@@ -154,13 +166,32 @@ Section Conc.
           let h := H c in
           Some (mkC (g_idx g) (sm_ins lex_cmp (g_bykey g) k h) (register_hash (g_byhash g) h)
                     (g_cas g) (g_nextv g) (g_I g) (g_S g) (g_R g)
-                    (tset (g_thr g) t (mkT (t_calls ts) (PRen k c) (t_res ts))))
+                    (tset (g_thr g) t (mkT (t_calls ts) (PRen k c (sm_get lex_cmp (g_bykey g) k)) (t_res ts))))
         else None
-      | PRen k c =>
+      | PRen k c repl =>
         let h := H c in
+        if bad h then Some (set_pc g t ts (PDropI k h repl))       (* rename fails: the guard is dropped uncommitted *)
+        else
         Some (mkC (g_idx g) (g_bykey g) (g_byhash g) (sm_ins lex_cmp (g_cas g) h c) (g_nextv g)
                   (g_I g) (g_S g) (g_R g)
                   (tset (g_thr g) t (mkT (t_calls ts) (WLockI (WPut k h (len c))) (t_res ts))))
+      | PDropI k h repl =>
+        (* IntentGuard::drop, not committed: lock I, release the hash, free the per-key slot if it
+           is still ours and put back the intent we had replaced, unlock I *)
+        if free (g_I g) then
+          let bk := match sm_get lex_cmp (g_bykey g) k with
+                    | Some h' =>
+                      if beqb h' h then
+                        match repl with
+                        | Some r => sm_ins lex_cmp (sm_del lex_cmp (g_bykey g) k) k r
+                        | None => sm_del lex_cmp (g_bykey g) k
+                        end
+                      else g_bykey g
+                    | None => g_bykey g
+                    end in
+          Some (finish (mkC (g_idx g) bk (release_hash (g_byhash g) h) (g_cas g) (g_nextv g) (g_I g) (g_S g) (g_R g) (g_thr g))
+                       t ts CErr)
+        else None
       | WLockI w =>
         if free (g_I g) then
           Some (mkC (g_idx g) (g_bykey g) (g_byhash g) (g_cas g) (g_nextv g) (Some t) (g_S g) (g_R g)
@@ -203,6 +234,12 @@ Section Conc.
         match todo with
         | [] => None
         | h :: rest =>
+          if bad h then
+            (* delete_blobs fails: the error is returned with I released; the operation stays applied,
+               the remaining deletions and the rollover checkpoint are skipped *)
+            Some (finish (mkC (g_idx g) (g_bykey g) (g_byhash g) (g_cas g) (g_nextv g) None (g_S g) (g_R g) (g_thr g))
+                         t ts CErr)
+          else
           let cas' := sm_del lex_cmp (g_cas g) h in
           match rest with
           | [] => Some (mkC (g_idx g) (g_bykey g) (g_byhash g) cas' (g_nextv g) None (g_S g) (g_R g)
@@ -221,7 +258,20 @@ Section Conc.
         else None
       | WCkW r e =>
         (* acquire W, write the snapshot, prune, release W and S *)
-        Some (finish (mkC (g_idx g) (g_bykey g) (g_byhash g) (g_cas g) (g_nextv g) (g_I g) None (g_R g) (g_thr g)) t ts r)
+        (* checkpoint_inner: a rollover checkpoint is skipped when nothing was logged since the last
+           persisted version; otherwise the version about to be persisted is recorded in memory BEFORE
+           the snapshot is written, so it stays advanced even when that write fails *)
+        let cur := lpv (g_idx g) in
+        let nv := g_nextv g in
+        let should := if e =? 0 then true else (if cur =? 0 then 1 <? nv else cur + 1 <? nv) in
+        let target := nv - 1 in
+        if negb should || (target =? 0) then
+          Some (finish (mkC (g_idx g) (g_bykey g) (g_byhash g) (g_cas g) (g_nextv g) (g_I g) None (g_R g) (g_thr g)) t ts r)
+        else
+          let i := g_idx g in
+          let i1 := mkIstate (km i) (rc i) target (ub i) (tb i) (ssz i) in
+          Some (finish (mkC i1 (g_bykey g) (g_byhash g) (g_cas g) (g_nextv g) (g_I g) None (g_R g) (g_thr g)) t ts
+                       (if ckbad then CErr else r))
       | RRead k =>
         if free (g_S g) then
           match sm_get cmp (km (g_idx g)) k with
@@ -248,6 +298,7 @@ Section Conc.
         if so then Some (finish g t ts (CSize (Some (isize it))))
         else Some (set_pc g t ts (GOpen k it))
       | GOpen k it =>
+        if bad (ihash it) then Some (finish g t ts CErr) else      (* an error other than NotFound: no retry *)
         match sm_get lex_cmp (g_cas g) (ihash it) with
         | Some c => Some (finish g t ts (CBytes (Some c)))
         | None => Some (set_pc g t ts (GReread k it))
@@ -265,6 +316,7 @@ Section Conc.
       | GOpenL k it =>
         let g' := mkC (g_idx g) (g_bykey g) (g_byhash g) (g_cas g) (g_nextv g) (g_I g) (g_S g)
                       (filter (fun u => negb (Nat.eqb u t)) (g_R g)) (g_thr g) in
+        if bad (ihash it) then Some (finish g' t ts CErr) else
         match sm_get lex_cmp (g_cas g) (ihash it) with
         | Some c => Some (finish g' t ts (CBytes (Some c)))
         | None => Some (finish g' t ts CMissing)
@@ -290,6 +342,7 @@ Section Conc.
         else None
       | OUnlink h rest d s =>
         let '(cas', d', s') :=
+          if bad h then (g_cas g, d, s) else                      (* counted as an error, neither deleted nor skipped *)
           match sm_get lex_cmp (g_cas g) h with
           | Some _ => (sm_del lex_cmp (g_cas g) h, d + 1, s)
           | None => (g_cas g, d, s + 1)
